@@ -141,6 +141,7 @@ type baseSet struct {
 	ids     []int
 	markers []string
 	hot     []int // ids inside / at the edge of / just after a skip:N or skipAfter window
+	skipPh  int   // phase of the skip:N rule (0 = none)
 }
 
 func genBase(r *rand.Rand, wantMarkers bool) baseSet {
@@ -228,6 +229,7 @@ func genBase(r *rand.Rand, wantMarkers bool) baseSet {
 				}
 			}
 			h.Acts = append(h.Acts, actJ{A: "skip", N: n})
+			b.skipPh = b.src[k].Phase
 			// same phase for most of the following rules: skip counts rules of the running phase only
 			for j := k + 1; j < len(b.src) && j <= k+n+2; j++ {
 				if b.src[j].Marker == "" {
@@ -522,6 +524,28 @@ func generate(cfg vh.Config) []*caseJ {
 				hdr := []string{"x-ctl", "x-ctl2"}[t]
 				trigger = append(trigger, hdr)
 				ct, sh := genCtl(r, b, zero)
+				window := false
+				if t == 0 && b.skipPh != 0 && len(b.hot) > 0 && r.Intn(2) == 0 {
+					// directed: remove (for this transaction) a rule inside / at the edge of the skip window,
+					// from a trigger evaluated before the skip:N rule in the same phase
+					id := b.hot[r.Intn(len(b.hot))]
+					switch r.Intn(3) {
+					case 0:
+						ct = &ctlJ{Kind: "rmId", Spec: &specJ{A: id}}
+					case 1:
+						ct = &ctlJ{Kind: "rmId", Spec: &specJ{Range: true, A: id, B: id + r.Intn(2)}}
+					default:
+						ct = &ctlJ{Kind: "rmId", Spec: &specJ{A: id}}
+						for _, it := range c.Src {
+							if it.Marker == "" && it.ID == id {
+								if tg := headTags(it); len(tg) > 0 {
+									ct = &ctlJ{Kind: "rmTag", Val: tg[0]}
+								}
+							}
+						}
+					}
+					sh, window = "ctl-"+ct.Kind+"(skip window)", true
+				}
 				shape += sh
 				l := linkJ{Targets: []titemJ{{Var: "REQUEST_HEADERS", Key: keyJ{K: "str", V: hdr}}}, Op: opJ{K: "streq", Lit: "1"},
 					Acts: []actJ{{A: "disr", V: "pass"}, {A: "ctl", Ctl: ct}}}
@@ -534,8 +558,11 @@ func generate(cfg vh.Config) []*caseJ {
 				if r.Intn(8) == 0 {
 					ph = 2
 				}
+				if window {
+					ph = b.skipPh
+				}
 				it := itemJ{ID: 90 + t, Phase: ph, Links: []linkJ{l}}
-				if r.Intn(8) == 0 {
+				if !window && r.Intn(8) == 0 {
 					// the ctl sits on a chain starter / a chain member: model comparison only
 					ch := genLink(r)
 					if r.Intn(2) == 0 {
@@ -548,6 +575,9 @@ func generate(cfg vh.Config) []*caseJ {
 				pos := r.Intn(len(c.Src) + 1)
 				if r.Intn(3) != 0 {
 					pos = r.Intn(2)
+				}
+				if window {
+					pos = 0
 				}
 				c.Src = append(c.Src[:pos], append([]itemJ{it}, c.Src[pos:]...)...)
 			}
